@@ -280,7 +280,13 @@ let eval_step (leg : string) (cx : ctx) (st : srv_step) : (string * string * str
                          then Some d.s_name else None) p.so in
                      "complete=must" ^ list_s (uniq (List.map string_of_bytes must)) ^ "never" ^ list_s (uniq (List.map string_of_bytes forb))
                    end) in
-             Some (m, sp, cls_s (cursor_classes o))))
+             (* OPEN class own_initialiser_completion: completion (GetCompleteVar) does not use the initialiser region that
+                go-to-definition uses since fix 1031f4f: inside the initialiser list of `local a, b = <here>` the names being
+                declared are offered. The class holds when the cursor lies in the region of a declaration whose name is among
+                the labels. Found by the thorough tier (leg c14.then) *)
+             let own_init = List.exists (fun (d : socc) ->
+                 is_decl d.s_role && in_location d.s_region (z1 line) (z_of_int col) && List.mem d.s_name labels) p.so in
+             Some (m, sp, cls_s (cursor_classes o @ (if own_init then ["own_initialiser_completion"] else [])))))
   | _ -> None
 
 let run_case leg line =
